@@ -14,7 +14,7 @@ from ..refs import tlvcfg
 ID = "C11"
 LEVEL = "exploration"
 RULE = (
-    "history = sequence of operations over {set_config(c0..c13), derive_comments(c), derive_auth_blocks(c, ecc|cust), append / insert-at-0 / insert-in-middle "
+    "history = sequence of operations over {set_config(c0..c15), derive_comments(c), derive_auth_blocks(c, ecc|cust), append / insert-at-0 / insert-in-middle "
     "of a firmware component with or without TYPE tag, write+read back (replacing the object), foreign comment edit, write-and-check keeping the same object}; ALL sequences up to length 4 (quick) / 5 "
     "(thorough) over a reduced 10-letter alphabet plus seeded random sequences of length 5..25 over the full alphabet; the model is compared with the real "
     "objects after every operation. distinct = digest of the operation sequence; non-trivial = contains at least one set_config or derive operation"
@@ -50,6 +50,10 @@ CONFIGS.append({(K, 1): (7).to_bytes(2, "big"), (K, 2): (12345).to_bytes(2, "big
 # bus-address value present but all-zero / empty (meaning not stated; judged for history independence only)
 CONFIGS.append({(K, 7): b"\x05", (K, 6): b"ZeroBus", (K, 0x20): b"\x00", CODE: bytes([0x48] * 8)})
 CONFIGS.append({(K, 1): (9).to_bytes(2, "big"), (K, 4): b"\x01", (K, 3): b"EmptyBus", (K, 0x20): b""})
+# a project VERSION without any usable project identifier, next to a complete device identifier and a security code: the update
+# block carries the device-settings version
+CONFIGS.append({CODE: bytes([0x49] * 8), (K, 7): b"\x02", (K, 4): b"\x09", (K, 3): b"DevOnly"})
+CONFIGS.append({CODE: bytes([0x4A] * 8), (K, 7): b"\x03", (K, 5): (12).to_bytes(2, "big"), (K, 1): (321).to_bytes(2, "big"), (K, 2): (4).to_bytes(2, "big"), (K, 4): b"\x0b"})
 NCFG = len(CONFIGS)
 CUST_KEY = bytes([0x12, 0x34] * 8)
 
